@@ -57,6 +57,11 @@ func vpHeader(chain string, h int64, t time.Time, vals, next *types.ValidatorSet
 
 // vpCommit: every listed signer (index into vals, by position) signs for the header.
 func vpCommit(chain string, hd *types.Header, vals *types.ValidatorSet, keyIdx []int, signers []bool) *types.Commit {
+	return vpCommitNil(chain, hd, vals, keyIdx, signers, nil)
+}
+
+// vpCommitNil: as vpCommit, but the signers listed in nils genuinely precommitted nil in that round.
+func vpCommitNil(chain string, hd *types.Header, vals *types.ValidatorSet, keyIdx []int, signers []bool, nils []bool) *types.Commit {
 	bid := types.BlockID{Hash: hd.Hash(), PartSetHeader: types.PartSetHeader{Total: 1, Hash: tmhash.Sum([]byte("parts"))}}
 	sigs := make([]types.CommitSig, len(vals.Validators))
 	for i, v := range vals.Validators {
@@ -73,7 +78,12 @@ func vpCommit(chain string, hd *types.Header, vals *types.ValidatorSet, keyIdx [
 				}
 			}
 		}
-		sigs[i] = types.CommitSig{BlockIDFlag: types.BlockIDFlagCommit, ValidatorAddress: v.Address, Timestamp: hd.Time,
+		flag := types.BlockIDFlagCommit
+		if nils != nil && nils[i] {
+			vote.BlockID = types.BlockID{}
+			flag = types.BlockIDFlagNil
+		}
+		sigs[i] = types.CommitSig{BlockIDFlag: flag, ValidatorAddress: v.Address, Timestamp: hd.Time,
 			Signature: vpSign(key, types.VoteSignBytes(chain, vote.ToProto()))}
 	}
 	return types.NewCommit(hd.Height, 0, bid, sigs)
@@ -106,7 +116,12 @@ func vpC09Verify(adjacent bool) {
 	valsForHeader := newVals
 	signers := []bool{true, true, true}
 	hdrHeight := hNew
-	switch vp.Choice("perturb", 6) {
+	var nils []bool
+	switch vp.Choice("perturb", 8) {
+	case 6:
+		nils = []bool{false, true, true} // two of the three precommitted nil: nil precommits commit nothing
+	case 7:
+		nils = []bool{false, false, true} // exactly two thirds for the block plus a nil precommit
 	case 1:
 		chainNew = "other-chain"
 	case 2:
@@ -119,13 +134,13 @@ func vpC09Verify(adjacent bool) {
 		hdrHeight = hOld // not later in height
 	}
 	newHeader := vpHeader(chainNew, hdrHeight, time.Unix(tNew, 0).UTC(), valsForHeader, valsForHeader)
-	untrusted := &types.SignedHeader{Header: newHeader, Commit: vpCommit(chainNew, newHeader, newVals, newIdx, signers)}
+	untrusted := &types.SignedHeader{Header: newHeader, Commit: vpCommitNil(chainNew, newHeader, newVals, newIdx, signers, nils)}
 	err := Verify(trusted, trustedVals, untrusted, newVals, period, time.Unix(now, 0).UTC(), drift, DefaultTrustLevel)
 
 	// ---- reference
 	nSigned, nSignedTrusted := 0, 0
 	for i := range signers {
-		if signers[i] {
+		if signers[i] && (nils == nil || !nils[i]) {
 			nSigned++
 			if newIdx[i] <= 2 {
 				nSignedTrusted++
